@@ -5987,13 +5987,21 @@ def fill_rests(score_data: ScoreLike, measurewise=True) -> None:
             for measure in measures:
                 _fill_rests_within_measure(measure, part)
         else:
-            note_array = part.note_array(include_staff=True)
+            # the (voice, staff) pairs of all notes and rests (the note array has one row
+            # per chain of tied notes and no rests: a pair used only by tied continuations
+            # or by rests would be missed)
             unique_vocstaff = np.unique(
-                np.array([note_array["voice"], note_array["staff"]], dtype=np.int64),
-                axis=1,
+                np.array(
+                    [
+                        [n.voice if n.voice else 0, n.staff if n.staff else 0]
+                        for n in part.iter_all(GenericNote, include_subclasses=True)
+                    ],
+                    dtype=np.int64,
+                ).reshape(-1, 2),
+                axis=0,
             )
             for measure in measures:
-                _fill_rests_global(measure, part, unique_vocstaff.T)
+                _fill_rests_global(measure, part, unique_vocstaff)
 
 
 def infer_beaming(part: ScoreLike):
